@@ -7,7 +7,8 @@ import TracklibVerif.Drv.Util
                                   or `err:recursion` when the recursion does not terminate
   vw <eps> <xs> <ys>            → kept indices
   dist <x0> <y0> <x1> <y1> <x2> <y2>  → distance_to_segment
-  area <x0> <y0> <x1> <y1> <x2> <y2>  → triangle_area -/
+  area <x0> <y0> <x1> <y1> <x2> <y2>  → triangle_area
+  distq <6 rationals>           → exact squared distance to the closed segment (`distSegSq` on `Rat`) -/
 namespace TV.Drv.C16
 open TV.Simplify TV.Drv
 
@@ -42,6 +43,10 @@ def handle (cmd : String) (args : List String) : String :=
   | "area", _ =>
     match args.mapM float? with
     | some [x0, y0, x1, y1, x2, y2] => showFloat (triangleArea x0 y0 x1 y1 x2 y2)
+    | _ => "bad-request"
+  | "distq", _ =>
+    match args.mapM rat? with
+    | some [x0, y0, x1, y1, x2, y2] => showRat (distSegSq x0 y0 x1 y1 x2 y2)
     | _ => "bad-request"
   | _, _ => "bad-request"
 end TV.Drv.C16
